@@ -263,19 +263,18 @@ static void emit_wire(const Scenario& sc, const Session& s)
 }
 
 // ---------------------------------------------------------------- A. fragmentation exploration
-static void explore_scenario(const Scenario& sc, int max_dev)
+static void explore_scenario(const Scenario& sc, int max_dev, int coalesce)
 {
     auto ref = run_uniform(sc, 0, 0);
     std::string e = ref->check_final();
     if (!e.empty()) { S.viol("honest-" + sc.name, "unfragmented run: " + e); return; }
-    emit_wire(sc, *ref);
-  for (int coalesce = 0; coalesce < 2; coalesce++) {
+    if (!coalesce) emit_wire(sc, *ref);
+  {
     vx::Explorer ex;
     ex.max_dev = max_dev;
     uint64_t complete = 0, steps = 0;
     std::set<uint64_t> states;
     ex.explore([&](vx::Explorer& x) {
-        if (out_of_time()) { x.stop = true; return; }
         Session s(sc, coalesce != 0);
         for (;;) {
             s.pump();
@@ -283,7 +282,7 @@ static void explore_scenario(const Scenario& sc, int max_dev)
             if (!a[0] && !a[1]) break;
             uint64_t k = s.key();
             states.insert(k);
-            if (!x.visit(k, 0)) return;
+            if (!x.visit(k, 0)) { if (out_of_time()) x.stop = true; return; } // (visit() only prunes once the replayed prefix is consumed)
             int d = (a[0] && a[1]) ? x.choose(2, false, "dir") : (a[0] ? 0 : 1);
             int c = x.choose((int)a[d], true, "cut"); // 0 = all available, c = cut after c bytes (every position)
             s.deliver(d, c ? (size_t)c : a[d]);
@@ -291,6 +290,7 @@ static void explore_scenario(const Scenario& sc, int max_dev)
             if (s.dead) break;
         }
         complete++;
+        if (out_of_time()) x.stop = true; // stop after this (complete) execution; never inside a replayed prefix
         std::string err = s.check_final();
         if (err.empty() && (s.wire[0] != ref->wire[0] || s.wire[1] != ref->wire[1])) err = "wire bytes depend on the fragmentation";
         if (!err.empty()) S.viol(std::string("fragmentation-") + (coalesce ? "coalesced-" : "") + sc.name, err + " :: choices " + x.trace_str());
@@ -603,7 +603,7 @@ static int run_all(bool big)
         const int k = big ? 3 : 2;
         S.stat("explore_cut_bound", k);
         S.stat("explore_scenarios", scs.size());
-        vx::par_for(scs.size(), 1, [&](uint64_t lo, uint64_t hi, unsigned) { for (uint64_t i = lo; i < hi; i++) explore_scenario(scs[i], k); });
+        vx::par_for(scs.size() * 2, 1, [&](uint64_t lo, uint64_t hi, unsigned) { for (uint64_t i = lo; i < hi; i++) explore_scenario(scs[i / 2], k, i % 2); });
         S.flush();
     }
     // ---- B. message sequences x uniform chunkings
